@@ -232,6 +232,15 @@ func runC01(c *core.Ctx) {
 	// Go type names that contain one another, bound by name and by the three spellings of @go: __typename and fragments on the
 	// concrete types for every order of members and values (the probes of C08, their verdicts are this property's as well)
 	c08NameProbes(c)
+	// the schema grows between two requests on one root (a type joins an interface and a union through extend blocks only, no
+	// new type): what the second request selects through the interface is what the data holds (shared with C02, Part E)
+	if c.Shard == 0 {
+		runC02Growth(c, func(part, kind, msg string, attrs map[string]string, wc worldCase) {
+			attrs["part"] = part
+			wc.Diff = msg
+			c.Violation(kind, attrs, wc)
+		})
+	}
 	c.R.Bound = fmt.Sprintf("documents within %d mutations of %d bases", k, len(world.BaseDocs()))
 	if !completed {
 		c.Cap("deadline reached before the mutation neighbourhood was completed")
